@@ -29,10 +29,11 @@ RULE = ('operation histories on shared SparseVector / SparseLogicalVector / Spar
         'histories of ≤30 operations generated adaptively on the real objects (history j from Random(seed, j)); at every '
         '`toarray` the public conversion / query / constructor methods that are not protocol operations (to_flat_array, '
         'from_flat_array, tolist, astype, nonzero_*, positive_/negative_*, from_dict / from_set / from_rows / from_shape, '
-        'sparse(copy=), sum_of, copy_like, cross-kind constructors, list-left operators, argmax … dot) are compared with NumPy on the dense image (tags probe:*); a Python-only stream (about 800 '
+        'sparse(copy=), sum_of, copy_like, cross-kind constructors, list-left operators, argmax … dot) are compared with NumPy on the dense image (tags probe:*); a Python-only stream (about 2300 '
         'cases, tag stream:py, no Lean counterpart) judges binary64 values of extreme and inexact magnitude bit for bit '
         'against NumPy (underflow, overflow, rounding; comparisons one unit in the last place apart), negative positions, '
-        'reversed / overlong slices, boolean masks next to a column index, empty and repeated selections; the thorough tier is exhaustive for pairs of '
+        'every slice shape (start / stop below -size … beyond size × step ±1, ±2), boolean masks next to a column index, empty and '
+        'repeated selections; the thorough tier is exhaustive for pairs of '
         'vectors of size ≤3 over {0, a, −a, 1/2} (+, −, ×, comparisons; ÷ over {0, ±2, 1/2}) and for pairs of logical '
         'vectors of size ≤3 (every operator), binary and in place, sparse and dense operand; a case is non-trivial '
         'when at least one operation returned or left a non-zero array; distinct = distinct op sequences')
@@ -48,13 +49,14 @@ ASSUMPTIONS = [
     'SparseArray) are dropped before NumPy is consulted, as `reduce_ndim` does by design (tests compare `sv + [[2]]` with `arr + [[2]]`)',
     'operations NumPy refuses for dtype reasons (boolean subtract / negative, float into a boolean array in place) have no '
     'reference: only the invariant and the frame are judged there',
-    'negative positions, slices with a negative step or bounds beyond the size, boolean masks next to a column index, empty '
-    'row selections and a row index twice in one fancy index are not in the model (natural-number positions, clipped forward '
-    'slices, non-empty row lists; the model stream generates none of them): they are generated in the Python-only stream and '
-    'judged by the oracle alone; there the code FAILS the property (listed findings negative-index-not-wrapped, '
-    'slice-not-clipped-or-reversed, bool-mask-paired-with-column-index, empty-selection-loses-shape, '
-    'duplicate-row-selection-aliased; fixes C09-16 / C09-17 proposed for two of them); zero-size operands, `x[...]` and the target '
-    '(or an array sharing its rows) as the value of its own fancy assignment are not generated at all',
+    'negative positions, slices with negative / out-of-range bounds or a negative step, boolean masks next to a column index, '
+    'empty row selections and a row index twice in one fancy index are not in the model (natural-number positions, clipped '
+    'forward slices, non-empty row lists; the model stream generates none of them): they are generated in the Python-only '
+    'stream and judged by the oracle alone (slices: every start / stop / step combination, cells slicegrid/*).  Slices and '
+    'masks agree with NumPy since 8812333; the code still FAILS the property for negative POSITIONS of vectors and array '
+    'columns, empty row selections and repeated rows (listed findings negative-index-not-wrapped, empty-selection-loses-shape, '
+    'duplicate-row-selection-aliased); zero-size operands, `x[...]` and the target (or an array sharing several of its rows) as '
+    'the value of its own fancy assignment / in-place operand are not generated at all',
     'after a ZeroDivisionError inside an in-place operator the target is half-updated by design of the loop; the case ends '
     'there (`chg=?`) and the partial state is not judged',
     'after an operation of one of the known "size is not strict" classes the object is not used any more (both sides answer skip=nonwf)',
@@ -609,37 +611,16 @@ def is_bool_mask(i):
 
 
 def unwrapped_negative(idx, obj):
-    """a negative component the kernels do NOT wrap (the listed class): any negative position or slice bound of a vector, the
-    column component of an array index, or the bounds of an array ROW slice (`default_range`); negative integer / list ROW
-    positions of an array go through Python list indexing, wrap correctly and are NOT part of the class"""
-    if obj.__class__ is not SA: return has_negative(idx)
-    if isinstance(idx, tuple) and len(idx) == 2:
-        r, c = idx
-        return has_negative(c) or (isinstance(r, slice) and has_negative(r))
-    if isinstance(idx, tuple) and len(idx) == 1: idx = idx[0]
-    return isinstance(idx, slice) and has_negative(idx)
-
-
-def unclipped_slice(idx, obj):
-    """a slice the kernels turn into `range(start, stop, step)` without clipping or reversing: negative step, or a bound
-    beyond the size (the listed class `slice-not-clipped-or-reversed`)"""
-    def bad(s, n):
-        return isinstance(s, slice) and ((s.step is not None and s.step < 0) or (s.stop is not None and s.stop > n) or (s.start is not None and s.start > n))
-    if obj.__class__ is not SA:
-        if isinstance(idx, tuple) and len(idx) == 1: idx = idx[0]
-        return bad(idx, obj.size)
-    if isinstance(idx, tuple) and len(idx) == 2: return bad(idx[0], len(obj.rows)) or bad(idx[1], obj.vector_size)
-    if isinstance(idx, tuple) and len(idx) == 1: idx = idx[0]
-    return bad(idx, len(obj.rows))
-
-
-def rowmask_with_column(idx, obj):
-    """`sa[<boolean row mask>, <int / list / mask column>]` or a boolean column mask next to a list of rows: the code iterates the
-    booleans as integers (the listed class `bool-mask-paired-with-column-index`)"""
-    if obj.__class__ is not SA or not (isinstance(idx, tuple) and len(idx) == 2): return False
-    r, c = idx
-    if isinstance(r, slice) or isinstance(c, slice): return False
-    return (is_bool_mask(r) and np.ndim(c) <= 1) or (is_bool_mask(c) and np.ndim(r) == 1)
+    """a negative POSITION the kernels do not wrap (the listed class): a negative integer or a negative entry of an index
+    list of a vector, or of the column component of an array index.  Slices are NOT part of the class: since 8812333
+    `default_range` is `slice.indices`, so negative bounds wrap and out-of-range bounds clip exactly as in NumPy, and any
+    slice failure keeps its own signature.  Negative integer / list ROW positions of an array go through Python list
+    indexing and wrap correctly: not part of the class either."""
+    def neg_pos(i): return not isinstance(i, slice) and has_negative(i)
+    if isinstance(idx, tuple) and len(idx) == 1 and obj.__class__ is not SA: idx = idx[0]
+    if obj.__class__ is not SA: return neg_pos(idx)
+    if isinstance(idx, tuple) and len(idx) == 2: return neg_pos(idx[1])
+    return False
 
 
 def column_part(idx):
@@ -736,12 +717,10 @@ def oracle(W, line, t, err, value, npval, nperr, has_np, target, changed, fresh,
     # 2. representation invariant of everything touched or created
     known_oob = False
     sel = vshape = None
-    negidx = badslice = maskcol = False
+    negidx = False
     if k in ('set', 'get') and 'idx' in info:
         a_ = info['a']
         negidx = unwrapped_negative(info['idx'], a_)
-        badslice = unclipped_slice(info['idx'], a_)
-        maskcol = rowmask_with_column(info['idx'], a_)
         if a_.__class__ in (SV, SLV):
             known_oob = out_of_range_index(info['idx'], a_.size)
         elif a_.__class__ is SA and column_part(info['idx']) is not None:
@@ -755,7 +734,7 @@ def oracle(W, line, t, err, value, npval, nperr, has_np, target, changed, fresh,
     for i in list(changed) + list(fresh):
         w = W.wf_failure(W.objs[i])
         if w:
-            if w == 'key-out-of-range' and k == 'set' and (known_oob or overlong) and not (negidx or badslice or maskcol):
+            if w == 'key-out-of-range' and k == 'set' and (known_oob or overlong) and not negidx:
                 fail('setitem-out-of-range-or-overlong-stored', f'object @{i} = {W.show(W.objs[i])} holds an index outside its size')
             elif w == 'stored-zero' and W.float_mode and k in ('bin', 'ibin', 'rbin') \
                     and underflow_only(W, (W.objs[target] if k == 'ibin' else value), info):
@@ -857,11 +836,9 @@ def oracle(W, line, t, err, value, npval, nperr, has_np, target, changed, fresh,
             fail('rejected-valid:column-operand', f'the sparse code raised {info.get("exc")}')
         elif err == 'rejected' and nperr == 'nonfinite':
             fail(f'rejected-valid:{opname}' + (f':{kinds}' if kinds else ''), f'the sparse code raised {info.get("exc")}')
-    # index classes the kernels get wrong in a documented way, recognised by the index alone (and only for the failure
-    # families such an index can produce): negative positions that are not wrapped, slices that are not clipped / reversed,
-    # boolean masks iterated as integers next to a column index
-    for flag, sig in ((maskcol, 'bool-mask-paired-with-column-index'), (negidx, 'negative-index-not-wrapped'),
-                      (badslice, 'slice-not-clipped-or-reversed')):
+    # negative POSITIONS (not slice bounds) are not wrapped by the vector kernels: recognised by the index alone, and only for the
+    # failure families such an index can produce (boolean masks next to a column index and slices were repaired in 8812333)
+    for flag, sig in ((negidx, 'negative-index-not-wrapped'),):
         if not (flag and fails): continue
         fam = ('dense-mismatch:get', 'dense-mismatch:set', 'wf:key-out-of-range', 'wf:key-not-integer', 'index-out-of-range-accepted', 'not-rejected:get',
                'not-rejected:set', 'setitem-', 'rejected-valid:get', 'rejected-valid:set')
@@ -2278,6 +2255,27 @@ def py_stream_cases(rng):
         for form in forms:
             add(f'slice/{tk}/get/{form}', [new, f'get @{t} {form}'])
             add(f'slice/{tk}/set/{form}', [new, f'set @{t} {form} {val}', f'toarray @{t}'])
+    # ---- every slice shape: start / stop from {none, below -size, -size, inside (negative and positive), size, beyond size} ×
+    # step from {none, 1, 2, -1, -2}; all combinations on a vector, each combination once on a logical vector, the rows or
+    # the columns of an array (get, and set with a scalar)
+    def bounds(n): return [None, -(n + 2), -(n + 1), -n, -1, 0, 1, n, n + 2]
+    tok = lambda x: '_' if x is None else str(x)
+    n = 3
+    targets = (('SV', 'new Pf3:1,0,2', 0, 'Pf:7', '{}'), ('SLV', 'new Pb3:1,0,1', 0, 'Pb:1', '{}'),
+               ('SArows', 'new Pf3x3:1,0,2,0,3,0,4,5,0', 3, 'Pf:7', '{}'), ('SAcols', 'new Pf2x3:1,0,2,0,3,4', 2, 'Pf:7', 's_:_:_|{}'),
+               ('SAelem', 'new Pf2x3:1,0,2,0,3,4', 2, 'Pf:7', 'i1|{}'))
+    for a0 in bounds(n):
+        for b0 in bounds(n):
+            for st in (None, 1, 2, -1, -2):
+                sl = f's{tok(a0)}:{tok(b0)}:{tok(st)}'
+                if sl == 's_:_:_': continue
+                for tk, new, t, val, wrap in (targets[0], targets[1 + rng.randrange(4)]):
+                    form = wrap.format(sl)
+                    # (an empty ROW selection of an array is the listed class `empty-selection-loses-shape`, exercised by the
+                    #  `empty/*` cells; here it would only inflate that class)
+                    if not (tk == 'SArows' and len(range(*slice(a0, b0, st).indices(n))) == 0):
+                        add(f'slicegrid/{tk}/get', [new, f'get @{t} {form}'])
+                    add(f'slicegrid/{tk}/set', [new, f'set @{t} {form} {val}', f'toarray @{t}'])
     # ---- the same row twice in a selection
     for op in ('add', 'mul', 'sub'):
         add(f'dup/i{op}', ['new Pf2x2:1,2,3,4', 'get @2 f0,0', f'ibin {op} @3 Pf:2', 'toarray @2'])
